@@ -228,17 +228,24 @@ func (h *FBDNSDB) watchDBAndReload(watcher *fsnotify.Watcher) (err error) {
 		case <-h.done:
 			return nil
 		case ev := <-watcher.Events:
-			if filterEvent(ev.Op) && path.Clean(ev.Name) == h.dbConfig.Path {
+			if filterEvent(ev.Op) && path.Clean(ev.Name) == h.dbPath() {
 				h.ReloadChan <- *NewPartialReloadSignal()
 			}
 		}
 	}
 }
 
+// dbPath returns the path of the served DB; a full reload changes it under reloadMu
+func (h *FBDNSDB) dbPath() string {
+	h.reloadMu.RLock()
+	defer h.reloadMu.RUnlock()
+	return h.dbConfig.Path
+}
+
 // WatchDBAndReload refreshes the data view on DB file change
 func (h *FBDNSDB) WatchDBAndReload() error {
 	// Watch the whole dir as file FD might change
-	watchdir := path.Dir(h.dbConfig.Path)
+	watchdir := path.Dir(h.dbPath())
 	watcher, err := prepareDBWatcher(watchdir)
 	if watcher != nil {
 		defer watcher.Close()
